@@ -72,6 +72,7 @@ def run_check(prop, tier, only=None, jobs=14, show=None):
     t0 = time.time()
     seed = int(os.environ.get('VERIF_SEED', '0') or 0)
     evpath = os.path.join(os.environ.get('VERIF_EVIDENCE_DIR', os.path.join(VERIF, 'evidence')), prop + '.json')
+    if only: evpath = os.path.join(engine.BUILD, 'evidence_partial', prop + '.json')      # a partial (development) run never replaces the property's evidence
     specs = sorted(glob.glob(os.path.join(VERIF, 'contracts', prop, '*.spec.c')))
     if not specs:
         print('UNDECIDED property=%s reason=no contracts for this property' % prop); return 2
